@@ -6,6 +6,24 @@
 //! `$view.ts_xxx_to::<$OC, $U>(w, mp, $out)` — the `#[no_out]`-generated `_to` form returns
 //! `Some(result)` when `out` is `None` and writes into the buffer otherwise.
 
+/// tokens of a strided out buffer: the view's slots, plus markers when a slot outside the view was
+/// written (`CLOBBERED`) or a slot of the view was left untouched (`UNWRITTEN`)
+pub fn strided_tokens(all: &[f64], sent: f64) -> String {
+    let vals: Vec<f64> = all.iter().step_by(2).cloned().collect();
+    let mut clobber = false;
+    for x in all.iter().skip(1).step_by(2) {
+        if x.to_bits() != sent.to_bits() { clobber = true; }
+    }
+    let mut unwritten = false;
+    for x in &vals {
+        if x.to_bits() == sent.to_bits() { unwritten = true; }
+    }
+    let mut t = crate::proto::toks(&vals);
+    if clobber { t.push_str(";CLOBBERED"); }
+    if unwritten { t.push_str(";UNWRITTEN"); }
+    t
+}
+
 /// regime of a request: "types" (Vec in, Vec out, returned: all element/output types),
 /// "backend" (b= given), "outpath" (oc= / p= given)
 pub fn regime(r: &crate::proto::Req) -> &'static str {
@@ -42,6 +60,26 @@ macro_rules! __roll_finish {
     }};
 }
 
+/// caller buffer that is a *strided* uninitialised ndarray view (every second slot of a base array
+/// pre-filled with a sentinel): results must land in the view's slots and nowhere else
+#[macro_export]
+macro_rules! __roll_finish_strided {
+    ($r:expr, $len:expr, $OC:ident, $U:ident, $out:ident, $call:expr) => {{
+        use std::mem::MaybeUninit;
+        const SENT: f64 = -7.25e300;
+        let mut __base = $crate::backends::Array1::<MaybeUninit<f64>>::from_elem(2 * $len, MaybeUninit::new(SENT));
+        {
+            let __v = __base.slice_mut($crate::backends::s![..;2]);
+            let $out: Option<<$OC as Vec1<$U>>::UninitRefMut<'_>> = Some(__v);
+            let __res: Option<$OC> = $call;
+            assert!(__res.is_none(), "out path returned a value");
+        }
+        let __all: Vec<f64> = __base.iter().map(|m| unsafe { m.assume_init() }).collect();
+        let __t = $crate::rollrun::strided_tokens(&__all, SENT);
+        __t
+    }};
+}
+
 /// single-series rolling function. `$xsm` = with_xs_all (null-aware) or with_xs_num (plain);
 /// `$xsb` = element types used in the backend regime (with_xs_f: f64 + Option<f64>, with_xs_f64: f64).
 #[macro_export]
@@ -71,6 +109,7 @@ macro_rules! roll1_dispatch {
                 match $r.s("oc") {
                     "deque" => { type $OC = std::collections::VecDeque<f64>; $crate::__roll_finish!($r, __len, $OC, $U, $out, $call) },
                     "nd" => { type $OC = $crate::backends::Array1<f64>; $crate::__roll_finish!($r, __len, $OC, $U, $out, $call) },
+                    "nds" => { type $OC = $crate::backends::Array1<f64>; $crate::__roll_finish_strided!($r, __len, $OC, $U, $out, $call) },
                     _ => { type $OC = Vec<f64>; $crate::__roll_finish!($r, __len, $OC, $U, $out, $call) },
                 }
             },
@@ -111,6 +150,7 @@ macro_rules! roll2_dispatch {
                 match $r.s("oc") {
                     "deque" => { type $OC = std::collections::VecDeque<f64>; $crate::__roll_finish!($r, __len, $OC, $U, $out, $call) },
                     "nd" => { type $OC = $crate::backends::Array1<f64>; $crate::__roll_finish!($r, __len, $OC, $U, $out, $call) },
+                    "nds" => { type $OC = $crate::backends::Array1<f64>; $crate::__roll_finish_strided!($r, __len, $OC, $U, $out, $call) },
                     _ => { type $OC = Vec<f64>; $crate::__roll_finish!($r, __len, $OC, $U, $out, $call) },
                 }
             },
